@@ -16,9 +16,11 @@ mod c19;
 mod c20;
 mod gen;
 mod c01;
+mod c03;
 mod c04;
 mod damage;
 mod disk;
+mod refpdf;
 mod simdisk;
 mod synth;
 mod trace;
@@ -38,7 +40,7 @@ use runner::*;
 static GLOBAL: alloc::Tracking = alloc::Tracking;
 
 fn props() -> Vec<Box<dyn Property>> {
-    vec![Box::new(c01::C01), Box::new(c04::C04), Box::new(c19::C19), Box::new(c20::C20), Box::new(c22::C22), Box::new(c29::C29)]
+    vec![Box::new(c01::C01), Box::new(c03::C03), Box::new(c04::C04), Box::new(c19::C19), Box::new(c20::C20), Box::new(c22::C22), Box::new(c29::C29)]
 }
 
 fn find(id: &str) -> Option<Box<dyn Property>> {
